@@ -1,0 +1,36 @@
+//go:build verif
+
+package replicator
+
+// Machine-checked contracts (govc, see /verif/DESIGN.md). Comment-only file.
+
+// ---- C27 (replicator accounting): a success is reported for the candidate node number i
+// only after the object was stored on exactly that candidate (local Put, or remote
+// replication to task.nodes[i], returned nil), and never more successes are reported than
+// copies were asked for. reported counts the SubmitSuccessfulReplication calls.
+
+//@ ghost field reported(x int) uint32
+//@ ghost pred storedOnCandidate(i int) bool
+
+//@ callrule local_put_fact in (*Replicator).HandleTask
+//@   property C27
+//@   callee *).Put
+//@   defines err == nil ==> storedOnCandidate(i)
+//@ callrule remote_replication_fact in (*Replicator).HandleTask
+//@   property C27
+//@   callee *).ReplicateObjectToNode
+//@   defines err == nil ==> storedOnCandidate(i)
+//@ callrule report_only_stored_and_not_more_than_asked in (*Replicator).HandleTask
+//@   property C27
+//@   callee (replicator.TaskResult).SubmitSuccessfulReplication
+//@   assigns reported
+//@   requires [object_stored_on_the_reported_candidate] storedOnCandidate(i)
+//@   requires [not_more_successes_than_copies_asked] reported(0) < old(task).quantity
+//@   defines reported(0) == old(reported(0)) + 1
+
+//@ func (*Replicator).HandleTask
+//@   property C27
+//@   mode bv
+//@   valid reported(0) == 0
+//@   loop 1 invariant reported(0) + task.quantity == old(task).quantity && reported(0) <= old(task).quantity
+//@   ensures [never_more_successes_than_asked] reported(0) <= old(task).quantity
